@@ -546,6 +546,16 @@ func c01TargetTable(c *Ctx) {
 		if cnt == 0 || stmts != nil {
 			return true
 		}
+		if cnt == 1 {
+			// the only statement that consults the maps is an `if <mode test> { … }` whose condition is not about the maps
+			// (`if b.protoFileTargetPath == "" { <the decision> }`): the decision is the body, found when the walk gets there
+			for _, st := range list {
+				if ifs, ok := st.(*ast.IfStmt); ok && isMapPred(info, st) && ifs.Else == nil && !isMapPred(info, ifs.Cond) &&
+					!strings.Contains(strings.ToLower(nodeStringAny(p, ifs.Cond)), "pathmap") && (ifs.Init == nil || !strings.Contains(strings.ToLower(nodeStringAny(p, ifs.Init)), "pathmap")) {
+					return true
+				}
+			}
+		}
 		// skip leading statements that do not consult the maps at all
 		first := -1
 		for i, st := range list {
